@@ -259,6 +259,17 @@ def compose(b, mat):
         if row_mismatch is None and [fact(t) for t in got] != [fact(t) for t in alone]:
             pairs = [(fact(x), fact(y)) for x, y in zip(got, alone) if fact(x) != fact(y)]
             row_mismatch = {'source': src['name'], 'in_file': pairs[0][0] if pairs else len(got), 'alone': pairs[0][1] if pairs else len(alone)}
+        if row_mismatch is None and transforms and all(fp == 'field.description' for fp, _ in transforms):
+            # "transformed and classified": a row no rule categorizes is named after the description the rules saw - the TRANSFORMED one
+            from tally.merchant_utils import apply_transforms, extract_merchant_name
+            for t in got:
+                if t['category'] == 'Unknown' and '_raw_description' in t:
+                    tx = {'description': t['raw_description'], 'amount': t['amount'] or 0, 'field': t['field'], 'source': t['source'], 'location': t['location'], 'date': t['date'].date()}
+                    seen = apply_transforms(tx, transforms).get('description', t['raw_description'])
+                    if t['merchant'] != extract_merchant_name(seen):
+                        row_mismatch = {'source': src['name'], 'in_file': f"the uncategorized row {t['raw_description']!r} is listed as merchant {t['merchant']!r}",
+                                        'alone': f'the rules file transforms its description to {seen!r}, which names the merchant {extract_merchant_name(seen)!r}'}
+                        break
         if row_mismatch is None and b.get('rf'):
             # by construction every transaction finds the supplemental row the witness rules look for - directly and through a top-level variable
             for r_ in b['rf']['rules']:
